@@ -2,6 +2,7 @@ package main
 
 import (
 	"go/token"
+	"strings"
 
 	"golang.org/x/tools/go/ssa"
 )
@@ -140,4 +141,106 @@ func ruleBufferedOrder(r *Report) {
 	if n == 0 {
 		r.OK(rule, key, fn.Pos(), "no flush inside the write loop")
 	}
+}
+
+// R-direct-io-aligned: a file opened with O_DIRECT takes reads and writes of whole, aligned blocks at aligned offsets
+// only. The direct-I/O factory gives the ordinary buffered reader / writer such a file; every place where they touch the
+// file with a caller's slice or at a computed record offset breaks on it (EINVAL), or, for the writer's seek-back, loses
+// what is written afterwards. (Known findings: the factory is documented as experimental and a repair means an aligned
+// reader flavour, block-wise skipping and read-modify-write for seeks — more than a small patch.)
+func ruleDirectIOAligned(r *Report) {
+	const rule = "direct-io-aligned"
+	r.Rule(rule, 6, "what the direct-I/O factory hands out never reads into a caller's slice directly and never seeks the O_DIRECT file to an offset that is not block aligned (no alignment arithmetic on the offset): Reader.Read bypass, the SkipNext seeks, Writer.Seek")
+	p := r.P
+	aligned := func(v ssa.Value) bool {
+		return valueDependsOn(v, func(x ssa.Value) bool {
+			bo, ok := x.(*ssa.BinOp)
+			return ok && (bo.Op == token.AND_NOT || bo.Op == token.REM || bo.Op == token.QUO || bo.Op == token.AND)
+		})
+	}
+	// (1) the reader's large-read bypass
+	if fn := r.NeedFunc(rule, "recordio.Reader.Read"); fn != nil {
+		key := rule + "/recordio.Reader.Read/no-bypass"
+		var bypass []Site
+		eachInstr(fn, func(s Site) {
+			c, ok := s.Instr.(*ssa.Call)
+			if !ok || !c.Call.IsInvoke() || c.Call.Method.Name() != "Read" {
+				return
+			}
+			if _, f, _, isF := loadOfField(c.Call.Value); !isF || f != "rd" {
+				return
+			}
+			if len(c.Call.Args) == 1 && len(fn.Params) > 1 && paramOrigin(c.Call.Args[0]) == fn.Params[1] {
+				bypass = append(bypass, s)
+			}
+		})
+		guarded := false
+		for _, b := range liveBlocks(fn) {
+			if cnd, _, _, _, _, ok := effCond(b); ok {
+				if _, f, _, isF := loadOfField(cnd); isF && strings.Contains(strings.ToLower(f), "align") {
+					guarded = true
+				}
+			}
+		}
+		switch {
+		case len(bypass) == 0 || guarded:
+			r.OK(rule, key, fn.Pos(), "no unguarded direct read into the caller's slice")
+		default:
+			r.Bad(rule, key, bypass[0].Pos(), "Reader.Read reads a large request directly into the caller's slice; the reader of the direct-I/O factory is this very reader on an O_DIRECT file, so a record of about two reader buffers (16 KiB with a 4096-byte buffer) or a zero tail longer than the buffer fails with EINVAL on an intact file")
+		}
+	}
+	// (2) seeks of the file to record offsets
+	for _, k := range []string{"recordio.FileReader.SkipNext", "recordio.SkipNextV1", "recordio.SkipNextV2", "recordio.SkipNextV3"} {
+		fn := r.NeedFunc(rule, k)
+		if fn == nil {
+			continue
+		}
+		key := rule + "/" + k + "/seek-aligned"
+		seeks := CallsIn(fn, Keys("os.File.Seek"))
+		if len(seeks) == 0 {
+			r.OK(rule, key, fn.Pos(), "does not seek the file")
+			continue
+		}
+		bad := false
+		for _, s := range seeks {
+			a := argsOf(s.Call())
+			if len(a) > 0 && !aligned(a[0]) {
+				bad = true
+			}
+		}
+		if bad {
+			r.Bad(rule, key, seeks[0].Pos(), "SkipNext seeks the file to the unaligned start of the next record and resets the buffered reader there: on an O_DIRECT file (ReaderIoFactory(DirectIOFactory{})) the next block read fails with EINVAL, with default buffers and however the file was written")
+		} else {
+			r.OK(rule, key, seeks[0].Pos(), "seek offset is rounded to a block boundary")
+		}
+	}
+	if fn := r.NeedFunc(rule, "recordio.Writer.Seek"); fn != nil {
+		key := rule + "/recordio.Writer.Seek/seek-aligned"
+		var seeks []Site
+		eachInstr(fn, func(s Site) {
+			if c, ok := s.Instr.(*ssa.Call); ok && c.Call.IsInvoke() && c.Call.Method.Name() == "Seek" {
+				seeks = append(seeks, s)
+			}
+		})
+		bad := false
+		for _, s := range seeks {
+			if a := s.Call().Common().Args; len(a) > 0 && !aligned(a[0]) {
+				bad = true
+			}
+		}
+		guarded := false
+		for _, b := range liveBlocks(fn) {
+			if cnd, _, _, _, _, ok := effCond(b); ok {
+				if _, f, _, isF := loadOfField(cnd); isF && f == "alignFlush" {
+					guarded = true
+				}
+			}
+		}
+		if bad && !guarded {
+			r.Bad(rule, key, seeks[0].Pos(), "Writer.Seek positions the O_DIRECT file at the unaligned record offset: after a seek-back (the rollback the sstable writer performs when an index append fails) the following write succeeds into the buffer, Close fails with EINVAL and the file still serves the rolled-back record")
+		} else {
+			r.OK(rule, key, fn.Pos(), "seek keeps block alignment or is refused for aligned writers")
+		}
+	}
+	_ = p
 }
